@@ -99,7 +99,13 @@ def r07_1_copy_numbers(chk):
     chk.require(not bad and len(lw) >= 2, "R07.1", "item-list-append-only",
                 f"the set's item list is modified by {[(f.short, s.kind) for f, s in bad]}", eset.where)
     ga = eset.lookup("get_all_eflr_items")
-    chk.require(ga is not None and "[:]" in norm(ga.node) or "list(" in norm(ga.node), "R07.1", "item-list-not-leaked",
+    from ..terms import return_alternatives as _ra2, is_call as _ic2
+    fld = A(SELF, item_list_field(ix))
+    outs = [t for _, t in _ra2(chk.summary(ga))] if ga is not None else []
+    copies = bool(outs) and all((t[0] == "sub" and t[1] == fld and t[2][0] == "slice") or
+                                (_ic2(t, ("list", "tuple"), 1) and t[2][0] == fld) or (_ic2(t, "copy", 0) and t[1][1] == fld)
+                                for t in outs)
+    chk.require(copies, "R07.1", "item-list-not-leaked",
                 "get_all_eflr_items hands out the internal list itself", ga.where if ga else eset.where,
                 nontrivial=False)
 
